@@ -4,6 +4,7 @@ import (
 	"fmt"
 	"io/ioutil"
 
+	"github.com/openacid/slim/encode"
 	"github.com/openacid/slim/trie"
 	"github.com/openacid/testkeys"
 )
@@ -155,6 +156,41 @@ func runC06Fixture(ctx *Ctx, f fixture) {
 	legacyOracle(ctx, "C06", lc, "fixture-"+f.Ver+"-"+f.Opt, o, ld, nil, qs, 1)
 }
 
+// genInnersEndOnWordBoundary searches small random key sets for one whose
+// label bitmap (Slim.Inners) fills its last 64-bit word up to and including
+// bit 63.
+func genInnersEndOnWordBoundary(r *RNG) KeySet {
+	for t := 0; t < 20000; t++ {
+		var k []string
+		n := r.Range(8, 60)
+		alpha := "abcdefghijklmno"
+		if t%2 == 1 {
+			alpha = "0123456789:/_-"
+		}
+		for i := 0; i < n; i++ {
+			b := make([]byte, r.Range(1, 4))
+			for j := range b {
+				b[j] = alpha[r.Intn(len(alpha))]
+			}
+			k = append(k, string(b))
+		}
+		k = sortUniq(k)
+		st, err := trie.NewSlimTrie(encode.I32{}, k, nil)
+		if err != nil {
+			continue
+		}
+		b, _ := st.Marshal()
+		m := parseSlim(b)
+		if m == nil || m.Inners == nil || len(m.Inners.Words) == 0 {
+			continue
+		}
+		if m.Inners.Words[len(m.Inners.Words)-1]>>63 == 1 {
+			return KeySet{"inners-end-on-word-boundary", k}
+		}
+	}
+	return KeySet{"inners-end-on-word-boundary:not-found", genSmallAlpha(r)}
+}
+
 func runC06(ctx *Ctx, idx int) {
 	fx := listFixtures()
 	if idx < len(fx) {
@@ -187,6 +223,19 @@ func runC06(ctx *Ctx, idx int) {
 		// 0.5.10/0.5.11 stream: position bitmaps of ten thousand words and more,
 		// whose select index the old writers kept in another unit than today's
 		ks = genMegabyte(r, 1+(idx-1-len(dir)))
+	case idx-1-len(dir) >= 2 && idx-1-len(dir) < 6:
+		// a label bitmap that ends exactly on a 64-bit word boundary with its
+		// last bit set (found by search: one small random key set in a few
+		// hundred has it) - the alignment at which counts taken "up to the last
+		// bit" and "of the whole bitmap" part ways
+		ks = genInnersEndOnWordBoundary(r)
+	case idx-1-len(dir) == 6 && ctx.BuildMode != "race" && ctx.BuildMode != "asan":
+		// more than 131072 nodes in a three-section stream
+		var k []string
+		for i := 0; i < 118000; i++ {
+			k = append(k, string(r.Bytes(r.Range(3, 8))))
+		}
+		ks = KeySet{"uniform-118k", sortUniq(k)}
 	default:
 		ks = genKeySet(r, scale)
 	}
